@@ -381,7 +381,7 @@ func c07MakePlan(idx, n, dt int, excluded []group.MemberIndex, rng *rand.Rand, r
 	p.holdMember = proxied[rng.Intn(len(proxied))]
 	p.holdState = []int{1, 1, 3, 4, 5}[rng.Intn(5)]
 	p.holdWant = 1 + rng.Intn(len(ops)-1)
-	p.holdSleepMs = 300 + rng.Intn(700)
+	p.holdSleepMs = 3000 + rng.Intn(3000)
 	p.ppOffset = rng.Intn(9)
 	p.maxDelayMs = []int{5, 30, 30, 60}[rng.Intn(4)]
 	p.dupProb = []float64{0.1, 0.25, 0.5}[rng.Intn(3)]
@@ -420,6 +420,9 @@ type c07Env struct {
 	operating []group.MemberIndex
 	advCh     map[group.MemberIndex]net.BroadcastChannel // channels of excluded members
 	outsider  net.BroadcastChannel
+	// abort stops the run shortly after a definite violation was observed
+	// (the members would otherwise wait for each other until the watchdog)
+	abort func()
 }
 
 // classify returns "" for a message the property allows into the history of
@@ -521,6 +524,7 @@ func (p *c07Proxy) Receive(msg net.Message) error {
 		o.foreign[class]++
 		if grew {
 			o.foreignAdm = append(o.foreignAdm, fmt.Sprintf("%s@%T", class, p.inner))
+			p.env.abort()
 		}
 	}
 	return err
@@ -623,6 +627,8 @@ type c07Out struct {
 	panicked bool
 	base     *state.BaseAsyncState // nil for the Executor.Execute member
 	obs      *c07Obs
+	// firstFailure marks the member whose own error ended the run
+	firstFailure bool
 }
 
 type c07Fixture struct {
@@ -677,8 +683,20 @@ func c07Run(r *verifkit.Run, f *c07Fixture, pl *c07Plan, rng *rand.Rand, watchdo
 	for i := 1; i <= n; i++ {
 		env.pubBytes[group.MemberIndex(i)] = f.pubBytes[i-1]
 	}
-	ctx, cancel := context.WithTimeout(context.Background(), watchdog)
+	// The watchdog is a timer, not a deadline, so that a run cut by the
+	// watchdog (inconclusive) is told apart from a run the monitor stops
+	// because a member already failed with an error of its own (then the
+	// others would only wait for the watchdog).
+	ctx, cancel := context.WithCancel(context.Background())
 	defer cancel()
+	var watchdogFired int32
+	wd := time.AfterFunc(watchdog, func() {
+		atomic.StoreInt32(&watchdogFired, 1)
+		cancel()
+	})
+	defer wd.Stop()
+	var stopOnce sync.Once
+	env.abort = func() { stopOnce.Do(func() { time.AfterFunc(3*time.Second, cancel) }) }
 
 	open := func(pub *operator.PublicKey) net.BroadcastChannel {
 		ch, _ := netlocal.ConnectWithKey(pub).BroadcastChannelFor(name)
@@ -725,6 +743,15 @@ func c07Run(r *verifkit.Run, f *c07Fixture, pl *c07Plan, rng *rand.Rand, watchdo
 		wg.Add(1)
 		go func() {
 			defer wg.Done()
+			defer func() {
+				if (out.err != nil || out.panicked) && atomic.LoadInt32(&watchdogFired) == 0 {
+					stopOnce.Do(func() {
+						out.firstFailure = true
+						// give the others a moment to fail on their own, then stop them
+						time.AfterFunc(3*time.Second, cancel)
+					})
+				}
+			}()
 			out.panicked = r.Guard("dkg:", pl.desc(), func() {
 				if id == pl.execMember {
 					// the production entry point, unmodified
@@ -765,7 +792,7 @@ func c07Run(r *verifkit.Run, f *c07Fixture, pl *c07Plan, rng *rand.Rand, watchdo
 		}()
 	}
 	wg.Wait()
-	expired := ctx.Err() != nil
+	expired := atomic.LoadInt32(&watchdogFired) == 1
 	return &c07RunResult{outs: outs, ctxExpired: expired, env: env}
 }
 
@@ -885,7 +912,11 @@ func c07Judge(r *verifkit.Run, pl *c07Plan, rr *c07RunResult) (nontrivial bool) 
 			panicked = true
 		}
 		if o.err != nil || o.res == nil {
-			failed = append(failed, fmt.Sprintf("member %d: %v", o.id, o.err))
+			tag := ""
+			if o.firstFailure {
+				tag = " (first failure)"
+			}
+			failed = append(failed, fmt.Sprintf("member %d%s: %v", o.id, tag, o.err))
 		}
 	}
 	if panicked {
@@ -896,6 +927,11 @@ func c07Judge(r *verifkit.Run, pl *c07Plan, rr *c07RunResult) (nontrivial bool) 
 			if !violated {
 				r.Inconclusive(fmt.Sprintf("watchdog expired before the key generation finished (legit messages not admitted: %d): %s | %s", legitDropped, desc, strings.Join(failed, "; ")))
 			}
+			return nontrivial
+		}
+		if violated {
+			// the run was stopped by the monitor after a foreign message was
+			// admitted; the members' errors are a consequence
 			return nontrivial
 		}
 		viol("dkg:member-error", "an operating member failed although every operating member is honest: "+strings.Join(failed, "; "), failed)
